@@ -41,6 +41,12 @@ var siteStatements = []string{
 	"SELECT a, b FROM t WHERE c GROUP BY a WITH TOTALS ORDER BY b LIMIT 3",
 	"ALTER TABLE t ADD COLUMN c UInt8, DROP COLUMN d",
 	"CREATE TABLE t (a UInt8, b String DEFAULT 'x') ENGINE = MergeTree ORDER BY a",
+	// function-call shapes whose rendering rebuilds argument lists (FILTER, OVER, parametric, asterisks, special floats, bit strings)
+	"SELECT sumIf(a, b, c) FILTER (WHERE d > 0), corr(*, y) FILTER (WHERE z > 0), f(a, b, c, d, e) FILTER (WHERE g) FROM t",
+	"SELECT f(a) FILTER (WHERE b), g(a, b, c, d, e, f) FILTER (WHERE h), h(a, b, c, d, e, f, g) FILTER (WHERE i) FROM t",
+	"SELECT count(*) FILTER (WHERE a), quantile(0.5)(x) OVER (PARTITION BY a ORDER BY b), count(DISTINCT a, b, c) FROM t",
+	"SELECT nan, inf, -inf, (nan), [inf, -inf], b'0101', b'01010101 0101', x'4142', SUM(a), sum(b), Sum(c) FROM t",
+	"SELECT a IN (1, 2, 3), b NOT IN (SELECT 1), (1, 2) IN ((1, 2), (3, 4)), CASE a WHEN 1 THEN 2 ELSE 3 END, a BETWEEN 1 AND 2",
 }
 
 type baseline struct {
